@@ -47,13 +47,13 @@ func UnpadMessage(padded []byte) ([]byte, error) {
 		return nil, fmt.Errorf("invalid varint prefix in padded message: %d", varintLen)
 	}
 
-	end := uint64(varintLen) + msgLen
-	if end > uint64(len(padded)) {
+	// Compare against the remaining bytes: varintLen + msgLen could wrap around.
+	if msgLen > uint64(len(padded)-varintLen) {
 		return nil, fmt.Errorf(
 			"varint length %d exceeds available data (have %d bytes after prefix)",
 			msgLen, len(padded)-varintLen,
 		)
 	}
 
-	return padded[varintLen:end], nil
+	return padded[varintLen : varintLen+int(msgLen)], nil
 }
